@@ -113,7 +113,7 @@ func runC04(c *Ctx) {
 		resp := map[*ssa.Function]bool{}
 		for _, op := range ops {
 			if op.Class == "ProxyPoll.offerChannel" && (op.Dir == chSend || op.Dir == chClose) {
-				resp[op.Fn] = true
+				resp[helperRoot(op.Fn)] = true
 			}
 		}
 		if len(resp) == 0 {
@@ -495,7 +495,10 @@ func (c *Ctx) checkDeregistration(le *LockEngine) {
 				what string
 				pass func(ssa.Instruction) bool
 			}{
-				{"heap.Remove", func(in ssa.Instruction) bool { ci, ok := in.(ssa.CallInstruction); return ok && isCallTo(ci, "container/heap.Remove") }},
+				{"heap.Remove", func(in ssa.Instruction) bool {
+					ci, ok := in.(ssa.CallInstruction)
+					return ok && isCallTo(ci, "container/heap.Remove")
+				}},
 				{"the idToSnowflake delete", isDelete},
 				{"AvailableProxies.Dec", func(in ssa.Instruction) bool { return gaugeOp(in, "Dec") }},
 				{"close(request.offerChannel)", func(in ssa.Instruction) bool { return opOn(p, in, "ProxyPoll.offerChannel", chClose) }},
